@@ -627,6 +627,11 @@ class EbuildProcessor:
             if not self.expect("clear_preloaded_eclasses succeeded", flush=True):
                 self.shutdown_processor()
                 return False
+        elif self.is_alive:
+            # the liveness probe went unanswered or was answered out of turn; its
+            # reply may still arrive, so this processor can't be kept in sync
+            self.shutdown_processor(force=True)
+            return False
         self._preloaded_eclasses.clear()
         return True
 
